@@ -64,14 +64,23 @@ Definition orun (st : ostate) (ops : list oop) : ostate := fold_left (fun s op =
 Definition pstate := list (spelling * N).   (* PrimaryName/value/<raw owner string>/ -> id of "name.tld" *)
 
 Inductive pop :=
-| PMake (s : spelling) (parsed : option N).  (* GetNameAndTLD(ToLower(msg.Name)): id of name.tld, None on error *)
+| PMake (s : spelling) (parsed : option N)   (* GetNameAndTLD(ToLower(msg.Name)): id of name.tld, None on error *)
+| POther (s : spelling) (ok : bool) (own : option N).
+  (* any other RNS message signed by s (Register, Transfer, Buy, Bid, AcceptBid, List, Delist, Update, records,
+     Init): of the primary-name pointers it may write only the one of the signer's OWN account, under the
+     canonical spelling (RegisterRNSName: SetPrimaryName(owner.String(), …) when asked to or when the owner has
+     none).  [own] = the value that pointer holds afterwards when the message wrote it (glue read back from
+     the store: the content of one's own pointer is not this property's business, foreign pointers are). *)
 
-Definition pop_signer (op : pop) : spelling := match op with PMake s _ => s end.
+Definition pop_signer (op : pop) : spelling := match op with PMake s _ => s | POther s _ _ => s end.
 
 Definition pstep (st : pstate) (op : pop) : pstate * out :=
   match op with
   | PMake s None => (st, Fail)
   | PMake s (Some nm) => (aset sp_eqb st s nm, Ok)          (* SetPrimaryName(ctx, msg.Creator, name, tld) *)
+  | POther s false _ => (st, Fail)
+  | POther s true None => (st, Ok)
+  | POther s true (Some nm) => (aset sp_eqb st (fst s, false) nm, Ok)
   end.
 
 Definition prun (st : pstate) (ops : list pop) : pstate := fold_left (fun s op => fst (pstep s op)) ops st.
